@@ -194,6 +194,9 @@ let run_case op kv : string * string =
          (match tw.tw_shift with
           | Small p -> Printf.sprintf "Small { period: %d }" (int_of_nat p)
           | Large s -> Printf.sprintf "Large { shift: %d }" (int_of_nat s))) r, fmt_trace t)
+  | "twcert" ->
+    let x = bytes kv "x" in
+    (Printf.sprintf "fwd=%b,rev=%b" (tw_cert_fwd_of x) (tw_cert_rev_of x), "-")
   | "twfind" | "twrfind" ->
     let x = bytes kv "x" and h = bytes kv "h" in
     let fx = if get kv "fx" = "" then x else bytes kv "fx" in
